@@ -130,8 +130,9 @@ func TestVerifReplay(t *testing.T) {
 class NativeReplayer:
     """Builds one native test binary for a package + harness files and replays assignments."""
 
-    def __init__(self, module_dir, pkgname, harness_paths, whole_program=False):
+    def __init__(self, module_dir, pkgname, harness_paths, whole_program=False, use_modfile=True):
         self.whole_program = whole_program
+        self.use_modfile = use_modfile
         self.module_dir, self.pkgname = module_dir, pkgname
         self.dir = tempfile.mkdtemp(prefix="replay_", dir=scratch())
         self.bin = os.path.join(self.dir, "replay.test")
@@ -143,6 +144,12 @@ class NativeReplayer:
         if self.built:
             return True
         files = []
+        extra_names = []
+        if not self.harness_paths:
+            # harnesses already live in the (scratch) module directory
+            for f in sorted(os.listdir(self.module_dir)):
+                if f.endswith(".go") and not f.endswith("_test.go"):
+                    extra_names += re.findall(r"^func (Harness_\w+)\(\)", open(os.path.join(self.module_dir, f)).read(), re.M)
         for h in self.harness_paths:
             if os.path.isdir(h):
                 files += sorted(os.path.join(h, f) for f in os.listdir(h) if f.endswith(".go"))
@@ -156,14 +163,17 @@ class NativeReplayer:
             dst = os.path.join(self.dir, os.path.basename(f))
             open(dst, "w").write(src)
             replace[os.path.join(self.module_dir, "zz_verif_" + os.path.basename(f))] = dst
+        names += extra_names
         test = REPLAY_TEST % {"pkg": self.pkgname, "entries": "".join('\t"%s": %s,\n' % (n, n) for n in names)}
         tdst = os.path.join(self.dir, "replay_test.go")
         open(tdst, "w").write(test)
         replace[os.path.join(self.module_dir, "zz_verif_replay_test.go")] = tdst
         ov = os.path.join(self.dir, "overlay.json")
         json.dump({"Replace": replace}, open(ov, "w"))
-        cmd = ["go", "test", "-c", "-vet=off", "-overlay", ov, "-modfile", modfile_copy(self.module_dir),
-               "-o", self.bin, "."]
+        cmd = ["go", "test", "-c", "-vet=off", "-overlay", ov, "-o", self.bin]
+        if self.use_modfile:
+            cmd += ["-modfile", modfile_copy(self.module_dir)]
+        cmd += ["."]
         r = subprocess.run(cmd, cwd=self.module_dir, env=GOENV, capture_output=True, text=True)
         self.build_log = r.stdout + r.stderr
         self.built = r.returncode == 0 and os.path.exists(self.bin)
